@@ -64,6 +64,10 @@ func oracle(c *Case, s *server, fail func(key, what string, c any), known map[st
 			skippedNew[key]++
 		}
 	}
+	if o.ClientErr != "" {
+		fail("c18-client-error", "the HTTP client could not complete the exchange: "+o.ClientErr, c)
+		return 1
+	}
 	bodyEvents := 0
 	for _, e := range o.Trace {
 		if e.Ev == "b" {
